@@ -408,6 +408,7 @@ type ListReq struct {
 	MaxKeys                       int // <0 = absent
 	V2                            bool
 	StartAfter                    bool   // V2: send marker as start-after instead of continuation-token
+	EmptyDelim                    bool   // send "delimiter=" with an empty value (the same as not sending it)
 	AlsoStartAfter                string // V2 with a continuation token: a start-after sent along with it (as SDK paginators do); the token wins
 }
 
@@ -429,6 +430,8 @@ func (s *Sess) List(q ListReq) ListResp {
 	}
 	if q.Delim != "" {
 		ps = append(ps, "delimiter="+queryEscape(q.Delim))
+	} else if q.EmptyDelim {
+		ps = append(ps, "delimiter=")
 	}
 	if q.HasMarker {
 		if !q.V2 {
